@@ -117,16 +117,11 @@ func (f *Field) sortArgs() (errors []error) {
 	if 0 < len(f.Args) {
 		if ot, _ := f.ConType.(*Object); ot != nil {
 			if fd := ot.fields.get(f.Name); fd != nil {
-				args := make([]*ArgValue, 0, len(f.Args))
-				for _, a := range fd.args.list {
-					args = append(args, f.getArg(a.N))
-				}
 				for _, av := range f.Args {
 					if fd.getArg(av.Arg) == nil {
 						errors = append(errors, valError(av.line, av.col, "%s is not an argument to %s", av.Arg, f.Name))
 					}
 				}
-				f.Args = args
 			}
 		}
 	}
